@@ -771,10 +771,18 @@ func runDet2(m *Model, r *RuleResult) {
 				}
 			case strings.HasPrefix(name, "(*math/rand.Rand)."):
 				// must be control-dependent on a value derived solely from Params.GreedyCycleBreakerRandomNodeChoice
-				deps := transitiveControlDeps(s.in.Block())
+				// every path to the draw must take the true edge of a test on the option alone
 				guarded := false
-				for _, d := range deps {
-					if d.Branch == 0 && m.derivesOnlyFromField(d.If.Cond, igPar+".GreedyCycleBreakerRandomNodeChoice", 0) {
+				for _, a := range s.fn.Blocks {
+					if len(a.Succs) != 2 {
+						continue
+					}
+					iff, isIf := a.Instrs[len(a.Instrs)-1].(*ssa.If)
+					if !isIf || !m.derivesOnlyFromField(iff.Cond, igPar+".GreedyCycleBreakerRandomNodeChoice", 0) {
+						continue
+					}
+					t := a.Succs[0]
+					if len(t.Preds) == 1 && (t == s.in.Block() || t.Dominates(s.in.Block())) {
 						guarded = true
 					}
 				}
